@@ -10,7 +10,7 @@ CHECK = {
  'technique': 'explicit-state BFS over the real control cycle with third-party interference symbols between cycles and before every file operation inside a cycle',
  'rule': 'per configuration (PWM map identity / README sparse / quantiser x direct / rate-limited / PID x limits, hwmon with and without pwm_enable, file fan) BFS over '
          '(controller+fan+device state, symbol); symbols = control cycle at curve 0/100/255, third-party mode write 0/2/3, third-party PWM write (6 values quick, all 256 thorough '
-         'for direct algorithms; expected+-1), and a cycle with one such write injected before its k-th file operation (k=0..8). Oracle after every complete interference-free cycle: '
+         'for direct algorithms; expected+-1), a cycle with one such write injected before its k-th file operation (k=0..8), and a cycle during which every read of the PWM file fails (the interference must still be undone by the write; nothing is demanded of the counter in such a cycle). Oracle after every complete interference-free cycle: '
          'pwm_enable==1, device PWM == map[nearest supported(request)], counter +1 iff the device value at cycle start differed from what fan2go had set, +0 if nothing touched the PWM. '
          'distinct_nontrivial = distinct reachable states summed over configurations.',
  'assumptions': COMMON_ASSUME + ['the fan device reads back what was written (identity / idempotent maps)'],
